@@ -421,6 +421,14 @@ Definition gen_remove_retired (now : Z) (g : gen) : gen :=
   let (l, log) := remove_retired now (g_toretire g) (g_log g) in
   mkG (g_len0 g) (g_highest g) (g_active g) l (g_initial g) log.
 
+(** [NextRetireTime]: when the next retired ID is due for removal (0 = nothing waiting); the run
+    loop's timer includes it among its deadlines *)
+Definition gen_next_retire (g : gen) : Z :=
+  match g_toretire g with
+  | [] => 0
+  | (t, _) :: _ => t
+  end.
+
 (** all IDs the generator knows: initial client destination ID, active ones, ones waiting to expire *)
 Definition gen_all_ids (g : gen) : list cid :=
   (match g_initial g with Some c => [c] | None => [] end) ++ map snd (g_active g) ++ map snd (g_toretire g).
